@@ -33,6 +33,8 @@ fn main() {
             s.require("file-e2e-stall:more-events-than-capacity", 100);
             s.require("file-e2e-stall:truncation-counted", 50);
             s.gen("file-e2e-stalled-destination", s.n(2_000, 40_000), fsim::e2e::stall_case, |c, cx| fsim::e2e::check_never_blocks(c, cx));
+            // the OTLP twin (real emit_otlp emitter, endpoint that holds / refuses / never reads; harness/c12/src/e2e.rs)
+            c12::e2e::register_c09(s);
             s.gen("file-batch-channel-laws", s.n(100_000, 3_000_000), fsim::e2e::batch_ops, |c, cx| fsim::e2e::check_batch_laws(c, cx));
             // the same workloads against a LIVE worker (few stalls): silent discards on the receiver's side
             // (idle path, hand-off) only show when the worker actually runs
